@@ -12,7 +12,7 @@ from vf import txgen, wharness
 from vf.ref import tx as rtx, interp
 
 EVENTS = [['sign'], ['verify'], ['sighash'], ['raw'], ['sign_and_update'], ['lock_blocks'], ['lock_time'],
-          ['rel_blocks', 0], ['rel_time', 0], ['rel_blocks', 1], ['bumpfee'], ['edit_out'], ['shuffle_out'],
+          ['rel_blocks', 0], ['rel_time', 0], ['rel_blocks', 1], ['rel_blocks_lt', 0], ['rel_time_lt', 0], ['bumpfee'], ['edit_out'], ['shuffle_out'],
           ['shuffle_in'], ['add_out']]
 
 
@@ -65,15 +65,20 @@ def apply_event(t, ev, model, n_in):
             _mod(model)
             t.set_locktime_time(1700000000)
             _resign_all(model)
-        elif k in ('rel_blocks', 'rel_time'):
+        elif k in ('rel_blocks', 'rel_time', 'rel_blocks_lt', 'rel_time_lt'):
             idx = ev[1]
             if idx >= n_in:
                 return 'noop'
             _mod(model)
             if k == 'rel_blocks':
                 t.set_locktime_relative_blocks(100 + idx, input_index_n=idx)
-            else:
+            elif k == 'rel_time':
                 t.set_locktime_relative_time(512 * 3, input_index_n=idx)
+            elif k == 'rel_blocks_lt':
+                # the optional third argument: an absolute locktime set in the same call
+                t.set_locktime_relative_blocks(100 + idx, input_index_n=idx, locktime=700000 + t.locktime % 7)
+            else:
+                t.set_locktime_relative_time(512 * 3, input_index_n=idx, locktime=1800000000 + t.locktime % 7)
             # documented: "existing signatures for THIS input will be removed": only that input is re-signed
             model['sig_epoch'][idx] = model['epoch']
             model['txid_fresh'] = True
